@@ -10,9 +10,9 @@ TRUSTED = [
 ]
 
 Q_STORY = dict(MaxStories=4, MaxSrc=3, MaxCarried=3)
-T_STORY = dict(MaxStories=5, MaxSrc=4, MaxCarried=3, Layouts=["plain", "between", "trailing", "both", "nt1", "nt2", "blank", "attr", "leadlast", "badtime"])
+T_STORY = dict(MaxStories=5, MaxSrc=3, MaxCarried=3, Layouts=["plain", "between", "trailing", "both", "nt1", "nt2", "blank", "attr", "leadlast", "badtime"])
 Q_ITEM = dict(MaxItems=4, MaxSrc=3, MaxCarried=2)
-T_ITEM = dict(MaxItems=5, MaxSrc=4, MaxCarried=3)
+T_ITEM = dict(MaxItems=5, MaxSrc=3, MaxCarried=3)
 
 
 def fam(tier, story=None, item=None, other=None, theorems=("story", "item", "other")):
@@ -59,7 +59,7 @@ def merge_property(families_fn, assumptions):
         stage["histories"] = round(time.time() - t0, 1)
         t0 = time.time()
         from . import randomdrv
-        rnd = randomdrv.run(report, seed, 500 if tier == "quick" else 10000)
+        rnd = randomdrv.run(report, seed, 500 if tier == "quick" else 3000)
         stage["random"] = round(time.time() - t0, 1)
         cov["stage_wall_s"] = stage
         cov["random_beyond_bound"] = rnd
@@ -92,7 +92,7 @@ def life_plans(tier):
                 dict(name="all3", mode="alphabet", theme="all", objs=[1], depth=3, cap=1500),
                 dict(name="random", mode="random", objs=[1, 2], depth=8, num=40, cap=400)]
     # (caps: a sample of the enumerated behaviours, drawn with the run's seed, is replayed when there are more)
-    return [dict(name="all3", mode="alphabet", theme="all", objs=[1], depth=3, cap=20000),
+    return [dict(name="all3", mode="alphabet", theme="all", objs=[1], depth=3, cap=8000),
             dict(name="carry4", mode="alphabet", theme="carry", objs=[1], depth=4, cap=12000),
             dict(name="share3", mode="alphabet", theme="share", objs=[1, 2], depth=3),
             dict(name="share4", mode="alphabet", theme="share", objs=[1, 2], depth=4, cap=12000),
